@@ -52,28 +52,60 @@ theorem checkResolution_isSome_iff (referrer : Spec) (types fileText : Bool) (r 
               · cases dyn <;> simp
         · simp [hf]
 
-/-- the statement's failure predicate for one visited entry -/
-inductive Failure (key : Spec) : Entry → Prop where
-  /-- a load / parse / unsupported-module error entry (a `Missing` entry is exempt only
-  while dynamic imports are followed, where it is reported in place at the import) -/
-  | errorEntry {mi c es} : ¬ (o.followDynamic = true ∧ mi = true) → Failure key (.err mi c es)
+/-- what one visited entry contributes *in place* (while it is the walk's current entry) -/
+inductive InPlace (key : Spec) : Entry → Prop where
+  /-- a load / parse / unsupported-module error entry (a `Missing` entry is deferred while
+  dynamic imports are followed: it is reported at the import, or at the end of the walk) -/
+  | errorEntry {mi c es} : ¬ (o.followDynamic = true ∧ mi = true) → InPlace key (.err mi c es)
   /-- the module's own types dependency, when types are included -/
   | typesDep {m td} : o.kind.includeTypes = true → m.typesDep = some td →
-      BadRes g o key td.fileText td.res → Failure key (.module m)
+      BadRes g o key td.fileText td.res → InPlace key (.module m)
   /-- the code side of a followed dependency -/
   | code {m d} : d ∈ walkDeps o key m → (o.followDynamic = true ∨ d.dyn = false) →
-      BadRes g o key d.fileText d.code → Failure key (.module m)
+      BadRes g o key d.fileText d.code → InPlace key (.module m)
   /-- the type side of a followed dependency of a checkable module, when types are included -/
+  | type {m d} : d ∈ walkDeps o key m → (o.followDynamic = true ∨ d.dyn = false) →
+      (o.kind.includeTypes && isCheckable o key m.mediaType) = true →
+      BadRes g o key d.fileText d.type → InPlace key (.module m)
+
+/-- the statement's failure predicate for one visited entry: **every** error entry, and a module
+with a rejected resolution on a selected side -/
+inductive Failure (key : Spec) : Entry → Prop where
+  | errorEntry {mi c es} : Failure key (.err mi c es)
+  | typesDep {m td} : o.kind.includeTypes = true → m.typesDep = some td →
+      BadRes g o key td.fileText td.res → Failure key (.module m)
+  | code {m d} : d ∈ walkDeps o key m → (o.followDynamic = true ∨ d.dyn = false) →
+      BadRes g o key d.fileText d.code → Failure key (.module m)
   | type {m d} : d ∈ walkDeps o key m → (o.followDynamic = true ∨ d.dyn = false) →
       (o.kind.includeTypes && isCheckable o key m.mediaType) = true →
       BadRes g o key d.fileText d.type → Failure key (.module m)
 
+theorem InPlace.failure {key : Spec} {e : Entry} (h : InPlace g o key e) : Failure g o key e := by
+  cases h with
+  | errorEntry _ => exact .errorEntry
+  | typesDep a b c => exact .typesDep a b c
+  | code a b c => exact .code a b c
+  | type a b c d => exact .type a b c d
+
+/-- a failure that is not reported in place is a missing entry visited while dynamic imports
+are followed -/
+theorem Failure.inPlace_or_deferred {key : Spec} {e : Entry} (h : Failure g o key e) :
+    InPlace g o key e ∨ (o.followDynamic = true ∧ ∃ c es, e = .err true c es) := by
+  cases h with
+  | @errorEntry mi c es =>
+    by_cases hc : o.followDynamic = true ∧ mi = true
+    · exact Or.inr ⟨hc.1, c, es, by rw [hc.2]⟩
+    · exact Or.inl (.errorEntry hc)
+  | typesDep a b c => exact Or.inl (.typesDep a b c)
+  | code a b c => exact Or.inl (.code a b c)
+  | type a b c d => exact Or.inl (.type a b c d)
+
 theorem toList_ne_nil_iff {α} (x : Option α) : x.toList ≠ [] ↔ x.isSome := by
   cases x <;> simp
 
-/-- an entry contributes an error exactly when it is a failure in the statement's sense -/
+/-- an entry contributes an error in place exactly when `InPlace` holds -/
 theorem entryErrors_ne_nil_iff (key : Spec) (e : Entry) :
-    entryErrors g o key e ≠ [] ↔ Failure g o key e := by
+    entryErrors g o key e ≠ [] ↔ InPlace g o key e := by
   cases e with
   | redirect t =>
     simp only [entryErrors, ne_eq, not_true_eq_false, false_iff]
@@ -82,7 +114,7 @@ theorem entryErrors_ne_nil_iff (key : Spec) (e : Entry) :
     simp only [entryErrors]
     constructor
     · intro h
-      apply Failure.errorEntry
+      apply InPlace.errorEntry
       intro ⟨h1, h2⟩
       simp [h1, h2] at h
     · intro h
@@ -101,7 +133,7 @@ theorem entryErrors_ne_nil_iff (key : Spec) (e : Entry) :
           rcases htd : m.typesDep with _ | td
           · simp [htd] at h
           · simp only [htd] at h
-            exact Failure.typesDep hk htd
+            exact InPlace.typesDep hk htd
               ((checkResolution_isSome_iff g o key true td.fileText td.res false).mp
                 ((toList_ne_nil_iff _).mp h))
         · simp [hk] at h
@@ -129,11 +161,11 @@ theorem entryErrors_ne_nil_iff (key : Spec) (e : Entry) :
           by_cases hcode : (checkResolution g o key false d.fileText d.code d.dyn).toList = []
           · by_cases hct : (o.kind.includeTypes && isCheckable o key m.mediaType) = true
             · simp only [hcode, hct, if_true, List.nil_append] at hne
-              exact Failure.type hd hf' hct
+              exact InPlace.type hd hf' hct
                 ((checkResolution_isSome_iff g o key true d.fileText d.type d.dyn).mp
                   ((toList_ne_nil_iff _).mp hne))
             · simp [hcode, hct] at hne
-          · exact Failure.code hd hf'
+          · exact InPlace.code hd hf'
               ((checkResolution_isSome_iff g o key false d.fileText d.code d.dyn).mp
                 ((toList_ne_nil_iff _).mp hcode))
         · simp [hf] at hne
@@ -166,7 +198,72 @@ theorem entryErrors_ne_nil_iff (key : Spec) (e : Entry) :
 
 variable (roots : List Spec)
 
-/-- **validation succeeds iff no failure is reachable along the selected edges** -/
+/-- whenever an import surfaces a missing entry in place, it reports an error there -/
+theorem surfacedKey_isSome (referrer : Spec) (types fileText : Bool) (r : Res) (dyn : Bool) (k : Spec)
+    (h : surfacedKey g o referrer fileText r = some k) :
+    (checkResolution g o referrer types fileText r dyn).isSome := by
+  unfold surfacedKey at h
+  unfold checkResolution
+  cases r with
+  | none => simp at h
+  | err c => simp at h
+  | ok s rng =>
+    simp only at h ⊢
+    split at h
+    · cases h
+    · split at h
+      · cases h
+      · rename_i h1 h2
+        simp only [h1, h2, if_false]
+        split at h
+        · rename_i hf
+          simp only [hf, if_true]
+          split at h
+          · cases dyn <;> simp
+          · cases h
+        · cases h
+
+/-- an entry that surfaces something in place contributes an error in place -/
+theorem entryErrors_ne_nil_of_surfaced (key k : Spec) (e : Entry) (h : k ∈ entrySurfaced g o key e) :
+    entryErrors g o key e ≠ [] := by
+  cases e with
+  | redirect t => simp [entrySurfaced] at h
+  | err mi c es => simp [entrySurfaced] at h
+  | module m =>
+    simp only [entrySurfaced, List.mem_append, List.mem_flatMap] at h
+    simp only [entryErrors, ne_eq, List.append_eq_nil_iff, Classical.not_and_iff_not_or_not]
+    rcases h with h | ⟨d, hd, h⟩
+    · left
+      by_cases hk : o.kind.includeTypes = true
+      · simp only [hk, if_true] at h ⊢
+        rcases htd : m.typesDep with _ | td
+        · simp [htd] at h
+        · simp only [htd] at h ⊢
+          have hk' : surfacedKey g o key td.fileText td.res = some k := by
+            cases hh : surfacedKey g o key td.fileText td.res <;> simp_all
+          exact (toList_ne_nil_iff _).mpr (surfacedKey_isSome g o key true _ _ false k hk')
+      · simp [hk] at h
+    · right
+      simp only [List.flatMap_eq_nil_iff]
+      intro hall
+      have hnil := hall d hd
+      by_cases hf : (o.followDynamic || !d.dyn) = true
+      · simp only [hf, if_true, List.mem_append, List.append_eq_nil_iff] at h hnil
+        rcases h with h | h
+        · have hk' : surfacedKey g o key d.fileText d.code = some k := by
+            cases hh : surfacedKey g o key d.fileText d.code <;> simp_all
+          exact (toList_ne_nil_iff _).mpr (surfacedKey_isSome g o key false _ _ d.dyn k hk') hnil.1
+        · by_cases hct : (o.kind.includeTypes && isCheckable o key m.mediaType) = true
+          · simp only [hct, if_true] at h hnil
+            have hk' : surfacedKey g o key d.fileText d.type = some k := by
+              cases hh : surfacedKey g o key d.fileText d.type <;> simp_all
+            exact (toList_ne_nil_iff _).mpr (surfacedKey_isSome g o key true _ _ d.dyn k hk') hnil.2
+          · simp [hct] at h
+      · simp [hf] at h
+
+/-- **validation succeeds iff no failure is reachable along the selected edges**: `Failure` counts
+every visited error entry — also a missing root, configured import or redirect target visited
+while dynamic imports are followed (repair of F5) -/
 theorem validate_ok_iff (hnd : roots.Nodup) :
     g.validate o roots = none ↔
       ∀ x e, Enq g o (fun _ => false) roots x → yieldOf g o x = some e → ¬ Failure g o x e := by
@@ -174,26 +271,38 @@ theorem validate_ok_iff (hnd : roots.Nodup) :
   simp only [Graph.validate, List.head?_eq_none_iff]
   constructor
   · intro hnil x e hx hy hf
-    have hne := (entryErrors_ne_nil_iff g o x e).mpr hf
-    obtain ⟨err, herr⟩ := List.exists_mem_of_ne_nil _ hne
-    have : err ∈ g.errors o roots := (hmem err).mpr ⟨x, e, hx, hy, herr⟩
-    rw [hnil] at this
-    cases this
+    have hempty : ∀ err, err ∉ g.errors o roots := by rw [hnil]; simp
+    rcases Failure.inPlace_or_deferred g o hf with hp | ⟨hfd, c, es, he⟩
+    · have hne := (entryErrors_ne_nil_iff g o x e).mpr hp
+      obtain ⟨err, herr⟩ := List.exists_mem_of_ne_nil _ hne
+      exact hempty err ((hmem err).mpr ⟨x, e, hx, hy, Or.inl herr⟩)
+    · by_cases hs : ∃ y ey, Enq g o (fun _ => false) roots y ∧ yieldOf g o y = some ey ∧
+          x ∈ entrySurfaced g o y ey
+      · obtain ⟨y, ey, hy1, hy2, hy3⟩ := hs
+        have hne := entryErrors_ne_nil_of_surfaced g o y x ey hy3
+        obtain ⟨err, herr⟩ := List.exists_mem_of_ne_nil _ hne
+        exact hempty err ((hmem err).mpr ⟨y, ey, hy1, hy2, Or.inl herr⟩)
+      · exact hempty (.moduleErr c)
+          ((hmem _).mpr ⟨x, e, hx, hy, Or.inr ⟨hfd, c, es, he, rfl, hs⟩⟩)
   · intro h
     apply List.eq_nil_iff_forall_not_mem.mpr
     intro err herr
-    obtain ⟨x, e, hx, hy, he⟩ := (hmem err).mp herr
-    exact h x e hx hy ((entryErrors_ne_nil_iff g o x e).mp (List.ne_nil_of_mem he))
+    obtain ⟨x, e, hx, hy, (he | ⟨_, c, es, he, _, _⟩)⟩ := (hmem err).mp herr
+    · exact h x e hx hy ((entryErrors_ne_nil_iff g o x e).mp (List.ne_nil_of_mem he)).failure
+    · exact h x e hx hy (he ▸ Failure.errorEntry)
 
 /-- the reported error belongs to a visited entry that is a failure (it names that entry's
 specifier / the resolved target and the referring range: see `checkResolution`) -/
 theorem validate_error_is_reachable_failure (hnd : roots.Nodup) (err : ErrOut)
     (h : g.validate o roots = some err) :
     ∃ x e, Enq g o (fun _ => false) roots x ∧ yieldOf g o x = some e ∧
-      err ∈ entryErrors g o x e ∧ Failure g o x e := by
+      C15.Attached g o roots x e err ∧ Failure g o x e := by
   have hm : err ∈ g.errors o roots := List.mem_of_mem_head? (by simpa [Graph.validate] using h)
   obtain ⟨x, e, hx, hy, he⟩ := (C15.errors_eq_attached g o roots hnd err).mp hm
-  exact ⟨x, e, hx, hy, he, (entryErrors_ne_nil_iff g o x e).mp (List.ne_nil_of_mem he)⟩
+  refine ⟨x, e, hx, hy, he, ?_⟩
+  rcases he with he | ⟨_, c, es, he, _, _⟩
+  · exact ((entryErrors_ne_nil_iff g o x e).mp (List.ne_nil_of_mem he)).failure
+  · exact he ▸ Failure.errorEntry
 
 /-- the options `valid()` uses -/
 def defaultOpts : WalkOpts :=
@@ -254,33 +363,42 @@ theorem unfollowed_dynamic_not_enqueued (hf : o.followDynamic = false) (key t : 
   · exact ⟨d, hd, hc, ht⟩
   · rw [hf] at hc; cases hc
 
-/-- **a reachable missing module is never dropped** (partial: the missing entry must be the
-resolved target of a followed dependency of a visited module; see the counterexample for roots). -/
-theorem missing_never_dropped_partial (hfd : o.followDynamic = true) (key : Spec) (m : Mod) (d : Dep)
+/-- a missing module that is the resolved target of a followed dependency is reported in place,
+at that import … -/
+theorem missing_reported_in_place (hfd : o.followDynamic = true) (key : Spec) (m : Mod) (d : Dep)
     (hd : d ∈ walkDeps o key m) (s rng c es : Nat) (hc : d.code = .ok s rng)
     (hmiss : g.slot (g.resolve s) = some (.err true c es)) :
-    Failure g o key (.module m) :=
-  Failure.code hd (Or.inl hfd) (by
+    InPlace g o key (.module m) :=
+  InPlace.code hd (Or.inl hfd) (by
     unfold BadRes
     rw [hc]
     exact Or.inr (Or.inr ⟨hfd, c, es, hmiss⟩))
 
-/-- full statement: every visited error entry makes validation fail -/
-def missing_never_dropped_statement : Prop :=
-  ∀ (g : Graph) (o : WalkOpts) (roots : List Spec) (x : Spec) (mi c es),
-    roots.Nodup → (x, Entry.err mi c es) ∈ g.walk o roots → g.validate o roots ≠ none
+/-- … and **no reachable failure is ever skipped**: every visited error entry — whatever made the
+walk visit it: a root, a configured import, a redirect, a dependency — makes validation fail.
+(Before the repair of F5 this was false for missing roots under `follow_dynamic`; the
+counterexample graph is `missingRoot` below.) -/
+theorem missing_never_dropped (hnd : roots.Nodup) (x : Spec) (mi : Bool) (c es : Nat)
+    (h : (x, Entry.err mi c es) ∈ g.walk o roots) : g.validate o roots ≠ none := by
+  intro hv
+  obtain ⟨h1, h2⟩ := (C15.walk_eq_visits g o (fun _ => false) roots hnd x _).mp h
+  exact (validate_ok_iff g o roots hnd).mp hv x _ h1 h2 Failure.errorEntry
 
-/-- a graph whose only root is missing -/
+/-- likewise for a visited module with a rejected resolution on a selected side -/
+theorem failure_never_dropped (hnd : roots.Nodup) (x : Spec) (e : Entry)
+    (h : (x, e) ∈ g.walk o roots) (hf : Failure g o x e) : g.validate o roots ≠ none := by
+  intro hv
+  obtain ⟨h1, h2⟩ := (C15.walk_eq_visits g o (fun _ => false) roots hnd x _).mp h
+  exact (validate_ok_iff g o roots hnd).mp hv x _ h1 h2 hf
+
+/-- a graph whose only root is missing (F5's input) -/
 def missingRoot : Graph :=
   { kind := .All, roots := [0], slots := [(0, .err true 5 0)], redirects := [], imports := [], schemes := [] }
 
-/-- F5: with `follow_dynamic` a missing *root* is visited but validation succeeds. -/
-theorem missing_root_counterexample : ¬ missing_never_dropped_statement := by
-  intro h
-  have := h missingRoot
-    { kind := .All, followDynamic := true, checkJs := fun _ => true, preferFastCheck := false }
-    [0] 0 true 5 0 (by decide) (by decide)
-  exact this (by decide)
+/-- with `follow_dynamic` the missing root is now reported -/
+example : missingRoot.validate
+    { kind := .All, followDynamic := true, checkJs := fun _ => true, preferFastCheck := false } [0]
+    = some (.moduleErr 5) := by decide
 
 /-- non-vacuity of `validate_ok_iff`: a failing and a passing graph -/
 example : C15.demo.validate (C15.demoOpts .All true) [0] = some (.missingDynamic 4 1) := by decide
